@@ -1252,4 +1252,145 @@ theorem loadCreds_eq_credsOf (d : CredDoc) : credsLoads true d = (credsOf d).map
         exact h ⟨fun f hf => ⟨(h1 f hf).1, (h1 f hf).2.1⟩, h2⟩
   | _ => rfl
 
+/-! ## the watcher over several files -/
+
+theorem mem_dropPath {p y : Nat} {l : List Nat} : y ∈ dropPath p l ↔ y ∈ l ∧ y ≠ p := by
+  simp [dropPath]
+
+theorem mem_addPath {p y : Nat} {l : List Nat} : y ∈ addPath p l ↔ y = p ∨ y ∈ l := by
+  unfold addPath
+  split
+  · rename_i h
+    constructor
+    · intro hy; exact Or.inr hy
+    · rintro (rfl | hy)
+      · simpa using h
+      · exact hy
+  · simp
+
+/-- a loop that does not leave on a failed renewal stays alive over one operation -/
+theorem watchStep_alive (l : WatchLoop) (hl : (l.renew && l.returnOnFailedRenewal) = false) (w : Watcher)
+    (op : FileOp) : (watchStep l w op).alive = w.alive := by
+  cases op <;> simp only [watchStep]
+  all_goals (repeat' split) <;> simp_all
+
+theorem watchRun_alive (l : WatchLoop) (hl : (l.renew && l.returnOnFailedRenewal) = false) (ops : List FileOp)
+    (w : Watcher) : (watchRun l w ops).alive = w.alive := by
+  induction ops generalizing w with
+  | nil => rfl
+  | cons op ops ih =>
+    simp only [watchRun, List.foldl_cons]
+    have := ih (watchStep l w op)
+    simp only [watchRun] at this
+    rw [this, watchStep_alive l hl]
+
+/-- an operation that does not take the file at `y` away leaves it present and watched -/
+theorem watchStep_keeps (l : WatchLoop) (w : Watcher) (op : FileOp) (y : Nat) (hd : op.displaces y = false)
+    (hw : y ∈ w.watched) (hp : y ∈ w.present) :
+    y ∈ (watchStep l w op).watched ∧ y ∈ (watchStep l w op).present := by
+  cases op with
+  | written p => simp only [watchStep]; split <;> exact ⟨hw, hp⟩
+  | attrib p => exact ⟨hw, hp⟩
+  | fileBack p => exact ⟨hw, mem_addPath.mpr (Or.inr hp)⟩
+  | register p =>
+    simp only [watchStep]
+    split
+    · exact ⟨List.mem_cons_of_mem _ hw, hp⟩
+    · exact ⟨hw, hp⟩
+  | fileRemoved p =>
+    have hne : y ≠ p := by
+      intro h; subst h; simp [FileOp.displaces] at hd
+    have hp' : y ∈ dropPath p w.present := mem_dropPath.mpr ⟨hp, hne⟩
+    have hw' : y ∈ dropPath p w.watched := mem_dropPath.mpr ⟨hw, hne⟩
+    simp only [watchStep]
+    repeat' split
+    all_goals exact ⟨by first | exact hw' | exact hw, hp'⟩
+  | fileReplaced p =>
+    have hne : y ≠ p := by
+      intro h; subst h; simp [FileOp.displaces] at hd
+    have hp' : y ∈ addPath p w.present := mem_addPath.mpr (Or.inr hp)
+    have hw' : y ∈ dropPath p w.watched := mem_dropPath.mpr ⟨hw, hne⟩
+    simp only [watchStep]
+    repeat' split
+    all_goals first | exact ⟨hw', hp'⟩ | exact ⟨hw, hp'⟩ | exact ⟨List.mem_cons_of_mem _ hw', hp'⟩
+
+theorem watchRun_keeps (l : WatchLoop) (ops : List FileOp) (w : Watcher) (y : Nat)
+    (hd : ∀ op ∈ ops, op.displaces y = false) (hw : y ∈ w.watched) (hp : y ∈ w.present) :
+    y ∈ (watchRun l w ops).watched ∧ y ∈ (watchRun l w ops).present := by
+  induction ops generalizing w with
+  | nil => exact ⟨hw, hp⟩
+  | cons op ops ih =>
+    simp only [watchRun, List.foldl_cons]
+    obtain ⟨h1, h2⟩ := watchStep_keeps l w op y (hd op (by simp)) hw hp
+    exact ih (watchStep l w op) (fun op' h => hd op' (by simp [h])) h1 h2
+
+theorem watchRun_append (l : WatchLoop) (w : Watcher) (a b : List FileOp) :
+    watchRun l w (a ++ b) = watchRun l (watchRun l w a) b := by
+  simp [watchRun, List.foldl_append]
+
+/-- a dead loop delivers nothing and stays dead -/
+theorem watchStep_dead (l : WatchLoop) (w : Watcher) (hw : w.alive = false) (op : FileOp) :
+    (watchStep l w op).alive = false ∧ (watchStep l w op).delivered = w.delivered := by
+  cases op <;> simp only [watchStep]
+  all_goals (repeat' split) <;> simp_all
+
+theorem watchRun_dead (l : WatchLoop) (ops : List FileOp) (w : Watcher) (hw : w.alive = false) :
+    (watchRun l w ops).alive = false ∧ (watchRun l w ops).delivered = w.delivered := by
+  induction ops generalizing w with
+  | nil => exact ⟨hw, rfl⟩
+  | cons op ops ih =>
+    simp only [watchRun, List.foldl_cons]
+    obtain ⟨h1, h2⟩ := watchStep_dead l w hw op
+    have := ih (watchStep l w op) h1
+    simp only [watchRun] at this
+    exact ⟨this.1, this.2.trans h2⟩
+
+/-- the code's loop starts listeners on writes only -/
+theorem watchStep_head_delivered (w : Watcher) (op : FileOp) (h : op.isWrite = false) :
+    (watchStep .head w op).delivered = w.delivered := by
+  cases op <;> simp only [watchStep, WatchLoop.head]
+  all_goals (repeat' split) <;> simp_all [FileOp.isWrite]
+
+/-! ## rule sets polled from an HTTP endpoint -/
+
+/-- one poll, for the code's reading of a broken transfer, does what the specification says -/
+theorem pollEndpoint_state (st : Option (List String)) (r : Polled) :
+    (pollEndpoint .internal st r).2 = orKeep (endpointLoads r) st := by
+  cases r with
+  | unreachable => cases st <;> rfl
+  | status c => cases st <;> rfl
+  | body t c =>
+    cases t with
+    | brokenOff => rfl
+    | complete =>
+      cases c with
+      | empty => cases st <;> rfl
+      | unparsable => rfl
+      | ruleSet ids acc =>
+        cases st with
+        | none => cases acc <;> rfl
+        | some old =>
+          simp only [pollEndpoint, fetchRuleSet]
+          by_cases h : old = ids
+          · subst h
+            cases acc <;> simp [endpointLoads, orKeep]
+          · have : (old == ids) = false := by simpa using h
+            cases acc <;> simp [this, endpointLoads, orKeep]
+
+/-! ## the status update of the kubernetes provider -/
+
+theorem updateStatus_returns (parts : Nat) (answers : List PatchAnswer) :
+    (updateStatus .head parts answers).returns = true := by
+  induction answers with
+  | nil => simp [updateStatus, StatusGuards.head, Out.returns]
+  | cons a rest ih =>
+    cases a with
+    | ok => simp [updateStatus, StatusGuards.head, Out.returns]
+    | noAnswer => simp [updateStatus, StatusGuards.head, Out.returns]
+    | status c =>
+      simp only [updateStatus, StatusGuards.head, Bool.not_true, Bool.and_false, Bool.false_eq_true, if_false]
+      split
+      · exact ih
+      · rfl
+
 end Heimdall.Loaders
